@@ -272,8 +272,8 @@ def build(history: Sequence[Sequence[Tuple]], **kw: Any) -> List[List[Any]]:
     return out
 
 
-def run_clear(history_objs: List[List[Any]], n_gt: int, mode: MatchingMode = MatchingMode.CENTERDISTANCE) -> Any:
-    return CLEAR(object_results=history_objs, num_ground_truth=n_gt, target_labels=[CAR], matching_mode=mode, matching_threshold_list=[THR[mode]])
+def run_clear(history_objs: List[List[Any]], n_gt: int, mode: MatchingMode = MatchingMode.CENTERDISTANCE, thr: Optional[float] = None) -> Any:
+    return CLEAR(object_results=history_objs, num_ground_truth=n_gt, target_labels=[CAR], matching_mode=mode, matching_threshold_list=[THR[mode] if thr is None else thr])
 
 
 def exhaustive(ctx: Ctx, length: int) -> None:
@@ -380,7 +380,10 @@ def random_histories(ctx: Ctx, n: int) -> None:
         objs = ([[]] if history else []) + [[mk_result(s["e"], s["g"], s["ok"], slot=i, est_lab=s["el"], gt_lab=s["gl"], jitter=0.001 * (k % 7), policy=policy) for i, s in enumerate(fr)] for k, fr in enumerate(specs)]
         n_gt = sum(1 for fr in specs for s in fr if s["g"] is not None) + r.choice([0, 0, 3])
         ctx.begin_case("random", idx, L=L, n_obj=n_obj, mode=str(mode), dup=dup)
-        c = run_clear(objs, n_gt, mode)
+        # IoU "any overlap" (a threshold of exactly 0) on every third IoU history: a regular value, under which the
+        # slightly overlapping misplaced estimates count as TP too (the reference model decides from the actual scores)
+        thr0 = 0.0 if (mode in (MatchingMode.IOU2D, MatchingMode.IOU3D) and idx % 3 == 0) else None
+        c = run_clear(objs, n_gt, mode, thr0)
         v = getattr(c, "_verif", None)
         # metamorphic: consistent renaming of estimate and ground-truth track ids
         ren_e: Dict[str, str] = {}
@@ -394,7 +397,7 @@ def random_histories(ctx: Ctx, n: int) -> None:
             return tbl[key]
 
         objs2 = ([[]] if history else []) + [[mk_result(rn(ren_e, s["e"], "x"), rn(ren_g, s["g"], "y"), s["ok"], slot=i, est_lab=s["el"], gt_lab=s["gl"], jitter=0.001 * (k % 7), policy=policy) for i, s in enumerate(fr)] for k, fr in enumerate(specs)]
-        c2 = run_clear(objs2, n_gt, mode)
+        c2 = run_clear(objs2, n_gt, mode, thr0)
         ctx.count("C05.renamed_runs")
         ctx.check(
             close(c.mota, c2.mota, 1e-12, 0) and close(c.motp, c2.motp, 1e-12, 1e-12) and c.id_switch == c2.id_switch and c.tp == c2.tp and c.fp == c2.fp,
